@@ -247,3 +247,68 @@ def b_native(B):
     if not np.array_equal(fold, [3, 3, 3, 3]):
         bad.append(("fold without header",))
     B.case("stack_aggregates_fold_header", not bad, detail=bad[:6])
+
+
+# ----------------------------------------------------------------------------- stack: per-label aggregates
+@harness(PROPERTY, "stack_iteration", functions=["ibldsp.voltage:stack"],
+         clause="stacking by label returns per-label aggregates: row k of the stack is the aggregate of exactly the traces carrying the k-th distinct label, the fold is its multiplicity")
+def h_stack(H):
+    import ast
+    from pyvc import interp as I
+    from pyvc.models import SymCallable
+    S = H.session("stack")
+    FN = V.stack
+
+    def body(it):
+        ntr, ns = z3.Ints("ntr ns")
+        it.ctx.assume(z3.And(ntr >= 1, ns >= 1))
+        data = A.fresh_array("data", "float64", (ntr, ns))
+        d0 = data.snapshot()
+        word = A.fresh_array("word", "int64", (ntr,))
+        calls = []
+
+        def agg(it_, args, kw):
+            xx = A.as_sarr(args[0])
+            calls.append({"in": xx.snapshot(), "shape": xx.shape, "axis": kw.get("axis", args[1] if len(args) > 1 else None)})
+            return A.fresh_array("agg", "float64", (xx.shape[1],))
+        fcn = SymCallable(lambda *args, **kw: agg(None, args, kw), "fcn_agg")
+        node, filename = I.SOURCES.funcdef(FN)
+        it.session.note_function(FN)
+        loops = [n for n in node.body if isinstance(n, ast.For)]
+        if len(loops) != 1:
+            raise I.Unsupported("cannot identify the per-label loop of stack()")
+        loop = loops[0]
+        before = node.body[:node.body.index(loop)]
+        env = I.Env(None, FN.__globals__, qualname="stack", filename=filename)
+        env.funcnode = node
+        env.vars.update(dict(data=data, word=word, fcn_agg=fcn, header=None))
+        it.ctx.func = env.qualname
+        it.exec_block(before, env)
+        uq = getattr(it.ctx, "unique_log", [])
+        if len(uq) != 1:
+            raise I.Unsupported("cannot identify the distinct labels (np.unique) in stack()")
+        uq = uq[0]
+        m = uq["m"]
+        st = env.vars["stack"]
+        s0 = st.snapshot()
+        it.ctx.oblige("stack.shape", z3.And(z3.BoolVal(st.ndim == 2), A.T(st.shape[0]) == m, A.T(st.shape[1]) == ns), "post", "one row per distinct label")
+        k = z3.Int("k")
+        it.ctx.assume(z3.And(k >= 0, k < m))
+        it.assign(loop.target, SV(k), env)
+        it.exec_block(list(loop.body), env)
+        it.ctx.oblige("stack.one_aggregate_per_label", z3.BoolVal(len(calls) == 1 and calls[0]["axis"] == 0), "post", "one aggregation across traces (axis 0) per label")
+        if len(calls) == 1:
+            w = [q for q in it.ctx.where_log if q["ndim"] == 1]
+            cin, cshape = calls[0]["in"], calls[0]["shape"]
+            i, t, r = z3.Ints("i t r")
+            sel = lambda ii: word.read((ii,)) == uq["values"](k)      # noqa  trace ii carries the k-th label
+            if w:
+                wi = w[-1]
+                it.ctx.oblige("stack.group_is_the_label", A.forall([i], lambda: z3.Implies(z3.And(i >= 0, i < ntr), wi["mask"]((i,)) == sel(i))), "post", "the traces aggregated for row k are exactly those whose label is the k-th distinct one")
+                it.ctx.oblige("stack.group_rows", z3.And(A.T(cshape[0]) == wi["count"], A.T(cshape[1]) == ns,
+                              A.forall([r, t], lambda: z3.Implies(z3.And(r >= 0, r < wi["count"], t >= 0, t < ns), cin((r, t)) == d0((wi["rows"](r), t))))), "post", "with all their samples", assume=False)
+            else:
+                raise I.Unsupported("cannot identify the selection of the traces of one label")
+            it.ctx.oblige("stack.row_written", A.forall([r, t], lambda: z3.Implies(z3.And(r >= 0, r < m, t >= 0, t < ns, r != k), st.read((r, t)) == s0((r, t)))), "post", "only row k of the stack is written in iteration k", assume=False)
+        it.ctx.oblige("stack.input_untouched", A.forall([z3.Int("i"), z3.Int("t")], lambda: z3.Implies(z3.And(z3.Int("i") >= 0, z3.Int("i") < ntr, z3.Int("t") >= 0, z3.Int("t") < ns), data.read((z3.Int("i"), z3.Int("t"))) == d0((z3.Int("i"), z3.Int("t"))))), "post", assume=False)
+    S.explore(body)
